@@ -137,7 +137,7 @@ func ruleReset(rule string) func(*Ctx) {
 		// epilogue on every exit of every exported Execute of the sweep engines
 		for _, name := range []string{"(clipper64).ExecuteOC", "(clipper64).ExecutePolyTree64", "(clipperD).ExecuteOC", "(clipperD).ExecutePolyTreeD", "(clipperD).ExecuteWithScaleFunc"} {
 			f := c.fn(name)
-			cs := callsTo(c, f, "(clipperBase).clearSolutionOnly")
+			cs := callsOrDelegates(c, f, "(clipperBase).clearSolutionOnly", 0)
 			bad := ""
 			for _, b := range f.Blocks {
 				if len(b.Instrs) == 0 {
@@ -372,4 +372,57 @@ func loopConstBound(l *loopInfo) int64 {
 		return -1
 	}
 	return k.Int64()
+}
+
+// freshFunc: an unexported function of the package that the reference record does not know (loops allowed, unlike
+// freshHelper): code the change under analysis moved out of, or merged from, recorded functions.
+func (c *Ctx) freshFunc(g *ssa.Function) bool {
+	if c.recorded == nil || g == nil || g.Blocks == nil || g.Parent() != nil || !c.inRepo(g) {
+		return false
+	}
+	if _, aliased := c.alias[g]; aliased {
+		return false
+	}
+	return !c.recorded[c.rawName(g)] && !token.IsExported(g.Name())
+}
+
+// callsOrDelegates: the calls in f to callee, plus the calls to fresh functions every return of which is itself
+// preceded by such a call (the body of f merged into, or delegated to, a new helper).
+func callsOrDelegates(c *Ctx, f *ssa.Function, callee string, depth int) []ssa.CallInstruction {
+	var out []ssa.CallInstruction
+	for _, ci := range calls(f) {
+		if calleeName(c, ci) == callee {
+			out = append(out, ci)
+			continue
+		}
+		if g := ci.Common().StaticCallee(); depth < 2 && c.freshFunc(g) && allReturnsPrecededBy(c, g, callee, depth+1) {
+			out = append(out, ci)
+		}
+	}
+	return out
+}
+
+func allReturnsPrecededBy(c *Ctx, g *ssa.Function, callee string, depth int) bool {
+	cs := callsOrDelegates(c, g, callee, depth)
+	n := 0
+	for _, b := range g.Blocks {
+		if len(b.Instrs) == 0 {
+			continue
+		}
+		r, ok := b.Instrs[len(b.Instrs)-1].(*ssa.Return)
+		if !ok {
+			continue
+		}
+		n++
+		dom := false
+		for _, x := range cs {
+			if precedes(x, r) {
+				dom = true
+			}
+		}
+		if !dom {
+			return false
+		}
+	}
+	return n > 0
 }
